@@ -145,15 +145,18 @@ class Fam:
                 if not bad:
                     self.b = v
             return "setp %s %s" % (hs(prefix + c), hx(v))
+        # rate / truncation point 0: accepted by the documented constraint [0, inf[ (outside the regular range of the
+        # property: only the tie and the parent-independent clauses are exercised), 2% of the updates
+        zero = r.random() < 0.02
         if k == "exp":
-            v = r.choice([-0.5, -1e-9]) if bad else nice(r, logu(r, 0.01, 10))
-            if not bad:
+            v = r.choice([-0.5, -1e-9]) if bad else (0.0 if zero else nice(r, logu(r, 0.01, 10)))
+            if not bad and not zero:
                 self.a = v
             return "setp %s %s" % (hs(prefix + "lambda"), hx(v))
         if k == "texp":
             c = r.choice(["lambda", "tp"])
-            v = r.choice([-0.5, -1e-9]) if bad else nice(r, logu(r, 0.01, 10) if c == "lambda" else logu(r, 0.1, 100))
-            if not bad:
+            v = r.choice([-0.5, -1e-9]) if bad else (0.0 if zero else nice(r, logu(r, 0.01, 10) if c == "lambda" else logu(r, 0.1, 100)))
+            if not bad and not zero:
                 setattr(self, "a" if c == "lambda" else "b", v)
             return "setp %s %s" % (hs(prefix + c), hx(v))
         return "setp %s %s" % (hs(prefix + "min"), hx(0.5))
@@ -271,7 +274,9 @@ class SimpleD:
             vals[1] = vals[0] + 1e-13          # equivalent to the first one: refused
         elif r < 0.12:
             probs[0] += 0.125                  # does not sum to one: refused
-        return "new simple %s 0 %d %s" % (hx(1e-12), self.k, " ".join(hx(v) + " " + hx(p) for v, p in zip(vals, probs)))
+        # precision of the map: the default 1e-12, sometimes 0 (exact comparison) or coarse
+        prec = 1e-12 if self.rng.random() < 0.8 else self.rng.choice([0.0, 0.0, 1e-3])
+        return "new simple %s 0 %d %s" % (hx(prec), self.k, " ".join(hx(v) + " " + hx(p) for v, p in zip(vals, probs)))
 
     def support(self):
         return (min(self.vals) - 0.5, max(self.vals) + 0.5)
